@@ -138,10 +138,10 @@ SIG_KEYNAME = {'hmac': '/k/hmac', 'hmac:1': '/k/hmac', 'hmac:63': '/k/hmac', 'hm
 FH_MENU = [[], [['h']], [['h'], ['g', 'h2']]]
 IPARAMS = [dict(can_be_prefix=c, must_be_fresh=m, nonce=n, lifetime=lt, hop_limit=h, fh=f)
            for c in (False, True) for m in (False, True) for n in (None, 0, 2 ** 32 - 1)
-           for lt in (None, 0, 255, 256, 65536, 2 ** 32) for h in (None, 0, 255) for f in range(3)]
+           for lt in (None, 0, 255, 256, 65536, 2 ** 32, 2 ** 63, 2 ** 64 - 1) for h in (None, 0, 255) for f in range(3)]
 DEFAULT_IP = dict(can_be_prefix=False, must_be_fresh=False, nonce=None, lifetime=4000, hop_limit=None, fh=0)
 METAS = [dict(content_type=c, freshness_period=fp, final=fb)
-         for c in (None, 0, 2, 255, 256) for fp in (None, 0, 1000, 2 ** 32) for fb in (None, 'empty', 'seg')] + [None]
+         for c in (None, 0, 2, 255, 256, 2 ** 63) for fp in (None, 0, 1000, 2 ** 32, 2 ** 63 - 1, 2 ** 64 - 1) for fb in (None, 'empty', 'seg')] + [None]
 DEFAULT_META = dict(content_type=0, freshness_period=None, final=None)
 
 
